@@ -678,9 +678,11 @@ fn float_exponent(input: &[u8]) -> LexResult<'_, Exponent> {
     };
     let (input, s_opt) = opt(sign)(input)?;
     let (input, exponent) = digits(input)?;
+    // Exponents beyond the i64 range saturate - the value is already infinity or zero long before
+    let exponent = i64::try_from(exponent).unwrap_or(i64::MAX);
     let exponent = match s_opt {
-        Some(Sign::Negative) => -(exponent as i64),
-        _ => exponent as i64,
+        Some(Sign::Negative) => -exponent,
+        _ => exponent,
     };
     Ok((input, Exponent(exponent)))
 }
@@ -724,11 +726,19 @@ fn calculate_float64_from_parts(left: DigitSequence, right: DigitSequence, expon
     let mut value64 = mantissa;
     if exponent > 0 {
         for _ in 0..exponent {
+            // Once the value saturated further scaling does not change it
+            if value64 == 0.0 || value64.is_infinite() {
+                break;
+            }
             value64 *= 10f64;
         }
     } else {
-        let mut m = 1.0;
+        let mut m = 1.0f64;
         for _ in 0..(-exponent) {
+            // Once the divisor saturated further scaling does not change it
+            if m.is_infinite() {
+                break;
+            }
             m *= 10f64;
         }
         value64 /= m;
